@@ -1,6 +1,7 @@
 package world
 
 import (
+	"bytes"
 	"crypto/sha256"
 	"time"
 
@@ -49,7 +50,11 @@ func newWallet(w *World, idx, home int) *Wallet {
 		if uc != nil {
 			ai.addr = uc.UnlockHash()
 		} else {
+			before := encAny(*p)
 			ai.addr = p.Address()
+			if !bytes.Equal(encAny(*p), before) {
+				w.violate("C09", "address-mutates-policy", "SpendPolicy.Address modified the "+kind+" policy it was called on")
+			}
 		}
 		wl.addrs = append(wl.addrs, ai)
 		wl.byAdr[ai.addr] = ai
